@@ -1,41 +1,345 @@
 package main
 
-// Replay of solver counterexamples against the real code (in-package tests
-// injected with `go test -overlay`). Adaptors are registered per function.
+// Replay of solver counterexamples against the real code. For functions whose inputs are scalars
+// and pointers to structs of scalars (and whose results are scalars), the failing query is asked
+// for the values of the inputs and of the predicted results, an in-package test that calls the real
+// function on those inputs is injected with `go test -overlay`, and the observed results are
+// compared with the prediction: when they agree, the real code violates the clause on that input.
 
-type replayAdaptor func(eng *Engine, repo string, o *Obligation, idx int, model map[string]string) (input interface{}, observed string, violated bool)
+import (
+	"fmt"
+	"go/types"
+	"os"
+	"os/exec"
+	"path/filepath"
+	"sort"
+	"strings"
 
-var replayAdaptors = map[string]replayAdaptor{}
+	"golang.org/x/tools/go/ssa"
+)
+
+type replayField struct {
+	Name string
+	T    types.Type
+	Term Term
+}
+
+type replayVar struct {
+	Name   string
+	T      types.Type
+	Term   Term          // scalar value or pointer
+	Struct types.Type    // pointee when the variable is a pointer to a struct of scalars
+	Fields []replayField // its fields in the entry state
+}
+
+type ReplayInfo struct {
+	Fn      *ssa.Function
+	Params  []replayVar
+	Results []Term
+	ResT    []types.Type
+}
+
+func scalarBasic(t types.Type) bool {
+	b, ok := under(types.Unalias(t)).(*types.Basic)
+	return ok && b.Info()&(types.IsInteger|types.IsBoolean) != 0
+}
+
+// replayInfo describes the inputs of fn when they can be rebuilt from a model; nil otherwise.
+func (eng *Engine) replayInfo(st *State, fn *ssa.Function, args []Val) *ReplayInfo {
+	if len(fn.FreeVars) > 0 || fn.Signature.TypeParams() != nil || fn.Signature.RecvTypeParams() != nil || fn.Pkg == nil {
+		return nil
+	}
+	ri := &ReplayInfo{Fn: fn}
+	for i, p := range fn.Params {
+		t, ok := args[i].(Term)
+		if !ok {
+			return nil
+		}
+		v := replayVar{Name: p.Name(), T: p.Type(), Term: t}
+		switch {
+		case scalarBasic(p.Type()):
+		default:
+			pt, ok := under(p.Type()).(*types.Pointer)
+			if !ok {
+				return nil
+			}
+			stt, ok := under(pt.Elem()).(*types.Struct)
+			if !ok {
+				return nil
+			}
+			if _, named := types.Unalias(pt.Elem()).(*types.Named); !named {
+				return nil
+			}
+			v.Struct = pt.Elem()
+			foreign := false
+			if n, ok := types.Unalias(pt.Elem()).(*types.Named); ok && n.Obj().Pkg() != fn.Pkg.Pkg {
+				foreign = true
+			}
+			for f := 0; f < stt.NumFields(); f++ {
+				if !scalarBasic(stt.Field(f).Type()) || (foreign && !stt.Field(f).Exported()) {
+					continue // left at its zero value in the replay (the comparison with the prediction decides)
+				}
+				v.Fields = append(v.Fields, replayField{Name: stt.Field(f).Name(), T: stt.Field(f).Type(), Term: st.readField(t, pt.Elem(), []int{f})})
+			}
+		}
+		ri.Params = append(ri.Params, v)
+	}
+	res := fn.Signature.Results()
+	if res.Len() == 0 || res.Len() > 2 {
+		return nil
+	}
+	for i := 0; i < res.Len(); i++ {
+		if !scalarBasic(res.At(i).Type()) {
+			return nil
+		}
+		ri.ResT = append(ri.ResT, res.At(i).Type())
+	}
+	return ri
+}
+
+func (ri *ReplayInfo) withResults(st *State, tvs []TV) *ReplayInfo {
+	if len(tvs) != len(ri.ResT) {
+		return nil
+	}
+	c := *ri
+	c.Results = nil
+	for i, tv := range tvs {
+		t, ok := tv.V.(Term)
+		if !ok {
+			return nil
+		}
+		if t.Sort == SB {
+			t = Ite(t, TInt(1), TInt(0))
+		}
+		_ = i
+		c.Results = append(c.Results, t)
+	}
+	return &c
+}
 
 func tryReplay(eng *Engine, repo, fnKey string, o *Obligation, idx int, model string) (interface{}, string, bool) {
-	ad, ok := replayAdaptors[fnKey]
-	if !ok {
-		return nil, "no replay adaptor for " + fnKey, false
+	q := o.Instances[idx]
+	ri := q.Replay
+	if ri == nil {
+		return nil, "no counterexample replay for this function (inputs are not scalars / structs of scalars)", false
 	}
-	m := parseModel(model)
-	return ad(eng, repo, o, idx, m)
+	// 1. concrete values of inputs and predicted results
+	var terms []Term
+	for _, p := range ri.Params {
+		t := p.Term
+		if t.Sort == SB {
+			t = Ite(t, TInt(1), TInt(0))
+		}
+		terms = append(terms, t)
+		for _, f := range p.Fields {
+			ft := f.Term
+			if ft.Sort == SB {
+				ft = Ite(ft, TInt(1), TInt(0))
+			}
+			terms = append(terms, ft)
+		}
+	}
+	terms = append(terms, ri.Results...)
+	vals, err := getValues(q, terms)
+	if err != nil {
+		return nil, "could not read the counterexample: " + err.Error(), false
+	}
+	// 2. the test
+	qual := func(p *types.Package) string {
+		if p == ri.Fn.Pkg.Pkg {
+			return ""
+		}
+		return p.Name()
+	}
+	imports := map[string]string{}
+	var collect func(t types.Type)
+	collect = func(t types.Type) {
+		switch tt := types.Unalias(t).(type) {
+		case *types.Named:
+			if tt.Obj().Pkg() != nil && tt.Obj().Pkg() != ri.Fn.Pkg.Pkg {
+				imports[tt.Obj().Pkg().Path()] = tt.Obj().Pkg().Name()
+			}
+		case *types.Pointer:
+			collect(tt.Elem())
+		}
+	}
+	lit := func(t types.Type, v string) string {
+		collect(t)
+		b := under(types.Unalias(t)).(*types.Basic)
+		if b.Info()&types.IsBoolean != 0 {
+			s := "false"
+			if v != "0" {
+				s = "true"
+			}
+			if _, named := types.Unalias(t).(*types.Named); named {
+				return types.TypeString(t, qual) + "(" + s + ")"
+			}
+			return s
+		}
+		return types.TypeString(t, qual) + "(" + v + ")"
+	}
+	k := 0
+	next := func() string { v := vals[k]; k++; return v }
+	var decl, callArgs, inputDesc []string
+	for i, p := range ri.Params {
+		name := fmt.Sprintf("a%d", i)
+		pv := next()
+		if p.Struct == nil {
+			decl = append(decl, fmt.Sprintf("\t%s := %s", name, lit(p.T, pv)))
+			inputDesc = append(inputDesc, fmt.Sprintf("%s=%s", p.Name, pv))
+		} else {
+			collect(p.Struct)
+			var fs, fd []string
+			for _, f := range p.Fields {
+				fv := next()
+				fs = append(fs, fmt.Sprintf("%s: %s", f.Name, lit(f.T, fv)))
+				fd = append(fd, fmt.Sprintf("%s:%s", f.Name, fv))
+			}
+			if pv == "0" {
+				decl = append(decl, fmt.Sprintf("\tvar %s %s", name, types.TypeString(p.T, qual)))
+				inputDesc = append(inputDesc, p.Name+"=nil")
+			} else {
+				decl = append(decl, fmt.Sprintf("\t%s := &%s{%s}", name, types.TypeString(p.Struct, qual), strings.Join(fs, ", ")))
+				inputDesc = append(inputDesc, fmt.Sprintf("%s=&{%s}", p.Name, strings.Join(fd, " ")))
+			}
+		}
+		callArgs = append(callArgs, name)
+	}
+	var predicted []string
+	for range ri.Results {
+		predicted = append(predicted, next())
+	}
+	call := ""
+	if ri.Fn.Signature.Recv() != nil {
+		call = callArgs[0] + "." + ri.Fn.Name() + "(" + strings.Join(callArgs[1:], ", ") + ")"
+	} else {
+		call = ri.Fn.Name() + "(" + strings.Join(callArgs, ", ") + ")"
+	}
+	var outs, prints []string
+	for i, t := range ri.ResT {
+		outs = append(outs, fmt.Sprintf("r%d", i))
+		b := under(types.Unalias(t)).(*types.Basic)
+		if b.Info()&types.IsBoolean != 0 {
+			prints = append(prints, fmt.Sprintf("map[bool]int{false: 0, true: 1}[bool(r%d)]", i))
+		} else {
+			prints = append(prints, fmt.Sprintf("r%d", i))
+		}
+	}
+	var imps []string
+	for path, name := range imports {
+		imps = append(imps, fmt.Sprintf("\t%s %q", name, path))
+	}
+	sort.Strings(imps)
+	src := "package " + ri.Fn.Pkg.Pkg.Name() + "\n\n// generated by govc: replay of a solver counterexample on the real function\n\nimport (\n\t\"testing\"\n" + strings.Join(imps, "\n") + "\n)\n\n" +
+		"func TestVerifModelReplay(t *testing.T) {\n\tdefer func() {\n\t\tif r := recover(); r != nil {\n\t\t\tt.Errorf(\"\\nVERIF-PANIC %v\", r)\n\t\t}\n\t}()\n" + strings.Join(decl, "\n") + "\n\t" + strings.Join(outs, ", ") + " := " + call + "\n\tt.Errorf(\"\\nVERIF-RESULT" + strings.Repeat(" %v", len(prints)) + "\"" + func() string {
+		s := ""
+		for _, p := range prints {
+			s += ", " + p
+		}
+		return s
+	}() + ")\n}\n"
+	dir, err := os.MkdirTemp("", "govc-replay")
+	if err != nil {
+		return nil, err.Error(), false
+	}
+	defer os.RemoveAll(dir)
+	file := filepath.Join(dir, "zz_verif_model_replay_test.go")
+	if err := os.WriteFile(file, []byte(src), 0o644); err != nil {
+		return nil, err.Error(), false
+	}
+	rel := strings.TrimPrefix(strings.TrimPrefix(ri.Fn.Pkg.Pkg.Path(), repoModule), "/")
+	if rel == "" {
+		rel = "."
+	}
+	exe, _ := os.Executable()
+	script := filepath.Join(filepath.Dir(filepath.Dir(exe)), "replay", "run_inpkg.sh")
+	out, _ := exec.Command(script, repo, rel, "TestVerifModelReplay", file).CombinedOutput()
+	input := strings.Join(inputDesc, ", ")
+	var observed []string
+	for _, l := range strings.Split(string(out), "\n") {
+		l = strings.TrimSpace(l)
+		if strings.HasPrefix(l, "VERIF-RESULT") {
+			observed = strings.Fields(l)[1:]
+		}
+		if strings.HasPrefix(l, "VERIF-PANIC") {
+			return input, "real code panicked: " + l, false
+		}
+	}
+	if observed == nil {
+		return input, "the generated replay test did not run: " + truncate(string(out), 600), false
+	}
+	obs := fmt.Sprintf("%s returned (%s); the counterexample predicts (%s)", call, strings.Join(observed, ", "), strings.Join(predicted, ", "))
+	if strings.Join(observed, ",") == strings.Join(predicted, ",") {
+		return map[string]interface{}{"call": funcKey(ri.Fn), "input": input, "result": strings.Join(observed, ", ")}, obs + ": the real code violates the clause on this input", true
+	}
+	return input, obs + ": not reproduced on the real code", false
+}
+
+// getValues asks the solver for the values of terms in a model of the failing query.
+func getValues(q *Query, terms []Term) ([]string, error) {
+	var b strings.Builder
+	// mention every term so that its symbols are declared even when the query does not use them
+	q2 := *q
+	q2.Assume = append([]Term(nil), q.Assume...)
+	for _, t := range terms {
+		q2.Assume = append(q2.Assume, Term{"(= " + t.S + " " + t.S + ")", SB})
+	}
+	text := q2.Text(false)
+	text = strings.Replace(text, "(check-sat)", "", 1)
+	b.WriteString(text)
+	b.WriteString("\n(check-sat)\n(get-value (")
+	for _, t := range terms {
+		b.WriteString(t.S)
+		b.WriteString(" ")
+	}
+	b.WriteString("))\n")
+	f, err := os.CreateTemp("", "gv*.smt2")
+	if err != nil {
+		return nil, err
+	}
+	defer os.Remove(f.Name())
+	f.WriteString(b.String())
+	f.Close()
+	out, _ := exec.Command("z3-new", "-T:20", f.Name()).CombinedOutput()
+	s := string(out)
+	if !strings.HasPrefix(strings.TrimSpace(s), "sat") {
+		return nil, fmt.Errorf("solver answered %q", truncate(strings.TrimSpace(s), 80))
+	}
+	if os.Getenv("GOVC_DEBUG_REPLAY") != "" {
+		fmt.Fprintln(os.Stderr, "get-value answer:", truncate(s, 1500))
+	}
+	toks := sexpTokens(s[strings.Index(s, "sat")+3:])
+	// ( ( term value ) ( term value ) ... )
+	var vals []string
+	i := 1
+	for i < len(toks) && toks[i] == "(" {
+		j := skipSexp(toks, i+1) // term
+		k := skipSexp(toks, j)   // value
+		v := strings.Join(toks[j:k], " ")
+		v = strings.ReplaceAll(v, "( - ", "-")
+		v = strings.ReplaceAll(v, "( -", "-")
+		v = strings.ReplaceAll(v, " )", "")
+		v = strings.TrimSpace(v)
+		vals = append(vals, v)
+		i = k + 1
+	}
+	if len(vals) != len(terms) {
+		return nil, fmt.Errorf("%d values for %d terms", len(vals), len(terms))
+	}
+	return vals, nil
 }
 
 // parseModel extracts (define-fun name () Sort value) entries of a z3/cvc5 model.
 func parseModel(model string) map[string]string {
 	out := map[string]string{}
 	toks := sexpTokens(model)
-	// scan for: ( define-fun NAME ( ) SORT VALUE )
 	for i := 0; i+5 < len(toks); i++ {
 		if toks[i] == "define-fun" && toks[i+2] == "(" && toks[i+3] == ")" {
 			name := toks[i+1]
 			j := i + 4
-			// sort: one token or a parenthesised group
 			j = skipSexp(toks, j)
 			k := skipSexp(toks, j)
-			val := ""
-			for _, t := range toks[j:k] {
-				if val != "" && t != ")" && val[len(val)-1] != '(' {
-					val += " "
-				}
-				val += t
-			}
-			out[name] = val
+			out[name] = strings.Join(toks[j:k], " ")
 		}
 	}
 	return out
